@@ -72,6 +72,10 @@ def _next_req_key() -> str:
     return f"key-{_REQ_KEYS[0]}"
 
 
+import datetime as _dt  # noqa: E402
+import decimal as _decimal  # noqa: E402
+import uuid as _uuid  # noqa: E402
+
 import pydantic as _pyd  # noqa: E402
 
 
@@ -80,6 +84,10 @@ class _ReqModel(_pyd.BaseModel):
 
     name: str = "n"
     key: str = _pyd.Field(default_factory=_next_req_key)
+    # values that are not JSON-native once parsed (what a re-send has to serialise again)
+    at: Optional[_dt.datetime] = None
+    amount: Optional[_decimal.Decimal] = None
+    uid: Optional[_uuid.UUID] = None
 
 
 class _PlainCls:
@@ -244,8 +252,14 @@ class ScriptedBroker(AsyncBroker):
             if isinstance(payload, (bytes, bytearray)):
                 # a fresh object per delivery that carries its delivery number (even for b"").  No reference is kept:
                 # a streaming broker's message objects are garbage once processed (and their id() may be re-used)
-                payload = TBytes(payload)
-                payload.verif_d = info["d"]
+                if len(payload) == 0:
+                    # CPython has one empty bytes object: every zero-length frame a network broker delivers *is* b""
+                    payload = b""
+                    if not info.get("ackable"):
+                        sc.__dict__.setdefault("empty_ds", []).append(info["d"])
+                else:
+                    payload = TBytes(payload)
+                    payload.verif_d = info["d"]
             if info.get("ackable"):
                 ackf = make_ack(sc, info)
                 try:
@@ -261,10 +275,49 @@ class ScriptedBroker(AsyncBroker):
 from taskiq.brokers.inmemory_broker import InMemoryBroker  # noqa: E402
 
 
+class _RecvProxy:
+    """Whatever Receiver object the in-memory broker currently holds, with MonReceiver's recording around callback()."""
+
+    def __init__(self, real: Any, sc: Scenario) -> None:
+        self.__dict__["_real"] = real
+        self.__dict__["_sc"] = sc
+
+    def __getattr__(self, name: str) -> Any:
+        return getattr(self.__dict__["_real"], name)
+
+    def __setattr__(self, name: str, value: Any) -> None:
+        setattr(self.__dict__["_real"], name, value)
+
+    async def callback(self, message: Any, raise_err: bool = False) -> None:
+        sc = self.__dict__["_sc"]
+        d = getattr(message, "verif_d", None)
+        OWNER.set(d)
+        if d is not None:
+            sc.tok_delivery[sc.deliveries[d]["tok"]] = d
+        sc.trace.add("cb_enter", d)
+        try:
+            await self.__dict__["_real"].callback(message, raise_err)
+        except BaseException as exc:  # noqa: BLE001
+            sc.trace.add("cb_raise", d, exc=type(exc).__name__)
+            raise
+        finally:
+            sc.trace.add("cb_exit", d)
+
+
 class MonInMemoryBroker(InMemoryBroker):
-    """The real InMemoryBroker (kick() runs Receiver.callback in a new asyncio task) with recording."""
+    """The real InMemoryBroker (kick() runs Receiver.callback in a new asyncio task) with recording.  The Receiver is
+    the one the broker builds itself (in __init__, or whenever it chooses to build another one): `receiver` is a
+    property that hands out a recording proxy around the current object."""
 
     sc: Scenario
+
+    @property
+    def receiver(self) -> Any:  # type: ignore[override]
+        return _RecvProxy(self.__dict__["_real_receiver"], self.sc)
+
+    @receiver.setter
+    def receiver(self, value: Any) -> None:
+        self.__dict__["_real_receiver"] = value
 
     def new_delivery(self, info: Dict[str, Any]) -> int:
         d = len(self.sc.deliveries)
@@ -371,6 +424,8 @@ class MonReceiver(Receiver):
             d = getattr(getattr(message, "ack", None), "verif_d", None)
         if d is None:
             d = getattr(getattr(message, "data", None), "verif_d", None)
+        if d is None and type(message) is bytes and not message and sc.__dict__.get("empty_ds"):
+            d = sc.empty_ds.pop(0)  # empty frames are handed over in the order they were delivered
         OWNER.set(d)
         if d is not None:
             sc.tok_delivery[sc.deliveries[d]["tok"]] = d
@@ -969,13 +1024,9 @@ def run_worker(spec: Dict[str, Any], real: bool = False) -> RunResult:
             else:
                 broker.add_middlewares(*mws)
         if inmem:
-            # the broker built its own Receiver in __init__; use the recording subclass with the same settings
-            MonReceiver.sc = sc
-            broker.receiver = MonReceiver(
-                broker=broker, executor=broker.executor, validate_params=cfg.get("validate", True),
-                max_async_tasks=cfg.get("A") or 30, propagate_exceptions=cfg.get("propagate", True),
-            )
-            broker.receiver.sc = sc
+            # (the broker built its own Receiver in __init__ from the constructor arguments above; it stays in place)
+            if spec.get("im_startup", True):
+                await broker.startup()  # what an application does once everything is configured
 
             handles: Dict[str, Any] = {}
 
